@@ -36,6 +36,14 @@ func (c07auth) HandleHandshake(conn session.ControlConnectionInterface, req *pac
 }
 func (c07auth) GetClientConfig(conn session.ControlConnectionInterface) (string, error) { return "", nil }
 
+// c07tunnel approves every TunnelOpen: whether a tunnel may be opened is C04's business; here a
+// TunnelOpen is the event that turns a (possibly registered, indexed) connection into a data connection.
+type c07tunnel struct{}
+
+func (c07tunnel) HandleTunnelOpen(conn session.ControlConnectionInterface, req *packet.TunnelOpenRequest) error {
+	return nil
+}
+
 type c07conn struct {
 	cl       *simnode.Client
 	srvID    string
@@ -46,6 +54,7 @@ type c07conn struct {
 	lastType string // type and id of the latest successful handshake of any type
 	lastID   int64
 	lastActive time.Duration // simulated time of the connect or of the latest heartbeat sent
+	tunnelMode bool          // sent TunnelOpen: the server treats it as a data connection from then on
 }
 
 func (c *c07conn) name() string { return c.cl.Name }
@@ -54,7 +63,7 @@ func init() {
 	Register(&Scenario{
 		ID:    "C07",
 		Level: "exploration",
-		Rule: "each run wires a real node with MaxControlConnections in {0,1,2,3}, heartbeat timeout 60 s / sweep 15 s on the simulated clock, and draws 5-25 operations over 2-3 client ids and up to 6 transports: connect, handshake as X (control or tunnel type), handshake again as Y on the same connection, duplicate login of X on another connection, KickOldControlConnection, heartbeat, silence longer than the heartbeat timeout, a login timed to the very sweep instant that finds the connection silent, server-side CloseConnection, client-side close (EOF in the read loop). Sequential mode (2/3 of runs) lets every operation settle and then checks: every by-client lookup is nil or a connection that is in the connection map, authenticated, carries that client id and whose transport is open; every closed or evicted transport is returned by no lookup; after everything is closed all counts are zero. Concurrent mode runs 2-3 actors simultaneously with statement-level interleavings, checks lookup well-formedness at every observation and the same end state. " +
+		Rule: "each run wires a real node with MaxControlConnections in {0,1,2,3}, heartbeat timeout 60 s / sweep 15 s on the simulated clock, and draws 5-25 operations over 2-3 client ids and up to 6 transports: connect, handshake as X (control or tunnel type), handshake again as Y on the same connection, duplicate login of X on another connection, KickOldControlConnection, heartbeat, silence longer than the heartbeat timeout, a login timed to the very sweep instant that finds the connection silent, TunnelOpen on a (control) connection (approve-all tunnel handler), server-side CloseConnection, client-side close (EOF in the read loop). Sequential mode (2/3 of runs) lets every operation settle and then checks: every by-client lookup is nil or a connection that is in the connection map, authenticated, carries that client id and whose transport is open; every closed or evicted transport is returned by no lookup; after everything is closed all counts are zero. Concurrent mode runs 2-3 actors simultaneously with statement-level interleavings, checks lookup well-formedness at every observation and the same end state. " +
 			"Non-trivial: at least one duplicate login, re-authentication, kick, sweep eviction or cap eviction happened; distinct = distinct schedule hashes.",
 		Real: []string{"internal/protocol/session SessionManager, ClientRegistry, connection lifecycle, control connection manager, handshake handler, stale sweep", "internal/protocol/adapter BaseAdapter read loop and cleanup", "internal/stream StreamProcessor", "cloud control + client state service on the memory backend"},
 		Stub: []string{"transport: simnet", "auth handler: approves the claimed id (C03 covers proof of identity)"},
@@ -77,6 +86,7 @@ func c07Run(w *simrt.World, tier string) {
 			HeartbeatTimeout: 60 * time.Second, CleanupInterval: 15 * time.Second, MaxConnections: 0, MaxControlConnections: maxCtl}})
 		if err == nil {
 			node.SM.SetAuthHandler(c07auth{})
+			node.SM.SetTunnelHandler(c07tunnel{})
 		}
 	})
 	if err != nil {
@@ -267,7 +277,9 @@ func c07Run(w *simrt.World, tier string) {
 		log("%s handshake id=%d type=%s → ok=%v success=%v", cc.name(), id, ctype, ok, ok && resp.Success)
 		if ok && resp.Success {
 			cc.hs = true
-			cc.lastType, cc.lastID = ctype, id
+			if !cc.tunnelMode { // a TunnelOpen sent by another actor meanwhile is processed after this handshake
+				cc.lastType, cc.lastID = ctype, id
+			}
 			if ctype == "control" {
 				if len(cc.ids) > 0 && cc.ids[len(cc.ids)-1] != id {
 					interesting = true
@@ -295,8 +307,11 @@ func c07Run(w *simrt.World, tier string) {
 		} else {
 			cc = conns[w.Draw(len(conns), "conn")]
 		}
-		kind := w.Draw(10, "op")
-		if !transportOpen(cc) && (kind < 6 || kind == 9) {
+		kind := w.Draw(11, "op")
+		if cc.tunnelMode && kind != 5 && kind != 6 && kind != 8 {
+			kind = 5 + w.Draw(2, "tunnelmode.close") // a data connection is only closed, by either side
+		}
+		if !transportOpen(cc) && (kind < 6 || kind >= 9) {
 			if len(conns) < 6 {
 				cc = newConn()
 				log("connect %s", cc.name())
@@ -313,6 +328,20 @@ func c07Run(w *simrt.World, tier string) {
 			lastHS = cc
 		}
 		switch kind {
+		case 10:
+			// TunnelOpen on this connection (after a control login this is a client that reuses its control
+			// connection as a data connection): the server takes it out of the control registry
+			nconn++
+			req := &packet.TunnelOpenRequest{TunnelID: fmt.Sprintf("c07-tun-%d", nconn), MappingID: "c07-map"}
+			cc.tunnelMode = true
+			cc.lastType = "tunnel-open"
+			err := cc.cl.SendJSON(packet.TunnelOpen, req)
+			log("%s sends TunnelOpen err=%v", cc.name(), err)
+			w.Probe("tunnel-open-on-connection")
+			if len(cc.ids) > 0 {
+				interesting = true
+				w.Probe("tunnel-open-on-control-connection")
+			}
 		case 9:
 			// a late login racing the sweep: wait for the first sweep instant at which this connection
 			// counts as silent for longer than the heartbeat timeout, and log in at that very instant
